@@ -69,6 +69,10 @@ var (
 	ysteps  uint64
 	// recording
 	rec []Seg
+	// goroutine ids of the registered tasks: a yield executed by any other
+	// goroutine (one the library started by itself) passes straight through
+	taskGoid [MaxTasks]uint64
+	Foreign  int // yields executed by goroutines that are not tasks
 	// probes
 	InCall   [MaxTasks]bool
 	CurObj   [MaxTasks]int
@@ -121,6 +125,7 @@ func Begin(c Config) {
 	ysteps = 0
 	rec = rec[:0]
 	Switches, Overlaps, SameObj = 0, 0, 0
+	Foreign = 0
 	Diverged = false
 	if mode == ModePCT {
 		// random distinct initial priorities (higher runs first)
@@ -242,6 +247,13 @@ func Yield(site int) {
 		return
 	}
 	me := turn
+	if me < 0 || taskGoid[me] != curGoid() {
+		// not the task whose turn it is: a goroutine the library itself started.
+		// The simulator does not own it; the Go scheduler does (the race detector
+		// still watches it).
+		Foreign++
+		return
+	}
 	ysteps++
 	nxt := pick(me)
 	noteRun(nxt)
@@ -265,9 +277,29 @@ func Yield(site int) {
 //
 //go:norace
 func Enter(id int) {
+	taskGoid[id] = curGoid()
 	for turn != id {
 		runtime.Gosched()
 	}
+}
+
+// curGoid reads the current goroutine's id from the first line of its stack
+// trace ("goroutine 123 [running]:"). About a microsecond; only used while a
+// concurrent simulation is active.
+//
+//go:norace
+func curGoid() uint64 {
+	var buf [40]byte
+	n := runtime.Stack(buf[:], false)
+	var id uint64
+	for i := len("goroutine "); i < n; i++ {
+		c := buf[i]
+		if c < '0' || c > '9' {
+			break
+		}
+		id = id*10 + uint64(c-'0')
+	}
+	return id
 }
 
 // Exit retires task id and hands the turn on.
